@@ -65,9 +65,19 @@ def judge(rec, step, res):
     raise ValueError(step["op"])
 
 
+AFTER = " (after an earlier copy_from_extent on the same object)"
+
+
+def disturbed_witness(rec):
+    return (f"{L.CLASSNAME.get(rec['kind'], rec['kind'])}: an earlier copy_from_extent altered the source's data, "
+            "so a later selection on the same object no longer yields the selection")
+
+
 def run_steps(spec, steps):
-    """Fresh workspace, build the object, run the steps in sequence (a copy becomes the
-    subject of the following steps), judge each step against the record of its own subject."""
+    """Fresh workspace, build the object, run the steps in sequence and judge each step against the
+    record its subject had when it became the subject.  A copy becomes the subject of the following
+    steps, unless the step says "stay": then the following steps select again on the same object and
+    are still judged against its ORIGINAL record (a selection must not depend on earlier selections)."""
     from geoh5py.workspace import Workspace
 
     world.reset("asc")
@@ -75,14 +85,25 @@ def run_steps(spec, steps):
     fails = []
     try:
         cur = L.build(ws, spec)
+        rec = L.record(cur)
+        again = False
         for step in steps:
-            rec = L.record(cur)
             res = call(cur, step)
-            fails += judge(rec, step, res)
+            got = judge(rec, step, res)
+            if again:
+                got = [(c, w + AFTER, d) for c, w, d in got]
+            fails += got
             if step["op"] == "copy":
+                if step.get("stay"):
+                    again = True
+                    if core.digest(_plain(L.record(cur))) != core.digest(_plain(rec)):
+                        fails.append(("copy-is-the-selection", disturbed_witness(rec),
+                                      {"altered_by": step, "object": L.label(spec)}))
+                    continue
                 if res is None or isinstance(res, Exception):
                     break
-                cur = res
+                cur, again = res, False
+                rec = L.record(cur)
     finally:
         ws.close()
     return fails
@@ -127,16 +148,20 @@ class Acc:
         self.n = {"mask": 0, "copy": 0, "data_mask": 0, "data_copy": 0, "copy2": 0}
         self.states = 0
         self.viol = {}
+        self.where = {}
         self.n_viol = 0
         self.outcomes = set()
         self.sample = None
+        self.srclog = []
 
-    def record(self, steps, fails):
+    def record(self, steps, fails, log=None):
         for clause, witness, detail in fails:
             self.n_viol += 1
             key = (clause, witness)
             if key not in self.viol:
                 self.viol[key] = (clause, witness, detail, {"spec": self.spec, "steps": steps})
+                # earlier copies made on the same subject (candidates for an order-dependent violation)
+                self.where[key] = (steps[:-1], list(log or []), steps[-1])
 
 
 def _enumerate_subject(acc, ent, rec, twin, combos, opts, prefix, depth):
@@ -144,6 +169,7 @@ def _enumerate_subject(acc, ent, rec, twin, combos, opts, prefix, depth):
     cls = L.CLASSNAME[rec["kind"]]
     data_names = _data_names(rec)[:1] if opts.get("data_ops") and depth == 1 else []
     firsts = []
+    log = acc.srclog if depth == 1 else []  # copy_from_extent calls already made on this subject
     for ncols, inverse in combos:
         if len(rec["coords"]) == 0:
             continue
@@ -193,7 +219,7 @@ def _enumerate_subject(acc, ent, rec, twin, combos, opts, prefix, depth):
                 acc.states += 1
                 fails = judge(rec, step, res)
                 if fails:
-                    acc.record(prefix + [step], fails)
+                    acc.record(prefix + [step], fails, log)
                 acc.outcomes.add((cls, "mask", ncols, inverse, _category(rec, res, ext)))
             acc.outcomes.add((cls, "regime", "full" if full else "quotient"))
         # ---- class representatives for the heavier operations
@@ -210,7 +236,7 @@ def _enumerate_subject(acc, ent, rec, twin, combos, opts, prefix, depth):
                 acc.n["data_mask"] += 1
                 fails = judge(rec, step, res)
                 if fails:
-                    acc.record(prefix + [step], fails)
+                    acc.record(prefix + [step], fails, log)
                 acc.outcomes.add((cls, "data_mask", ncols, inverse, _category(rec, res, ext)))
                 if nm == "loose" or twin is None:
                     continue
@@ -219,7 +245,7 @@ def _enumerate_subject(acc, ent, rec, twin, combos, opts, prefix, depth):
                 acc.n["data_copy"] += 1
                 fails = judge(rec, step, res)
                 if fails:
-                    acc.record(prefix + [step], fails)
+                    acc.record(prefix + [step], fails, log)
         if rec["kind"] in ("curve", "surface"):
             for c in classes:
                 acc.outcomes.add((cls, "vertex-subset", acc.spec.get("tag", "").split("/")[1] if depth == 1 else "copy", c if depth == 1 else 0))
@@ -230,7 +256,8 @@ def _enumerate_subject(acc, ent, rec, twin, combos, opts, prefix, depth):
             acc.states += 1
             fails = judge(rec, step, res)
             if fails:
-                acc.record(prefix + [step], fails)
+                acc.record(prefix + [step], fails, log)
+            log.append(step)
             cat = _category(rec, res, ext)
             acc.outcomes.add((cls, "copy", ncols, inverse, cat, depth))
             if acc.sample is None and cat == "entity" and c and _popcount(c) < len(rec["coords"]):
@@ -264,19 +291,56 @@ def run_item(item):
         before = core.digest(_plain(rec))
         twin = L.build(ws, spec, name="twin") if opts.get("data_ops") and _data_names(rec) else None
         _enumerate_subject(acc, ent, rec, twin, [tuple(c) for c in combos], opts, [], 1)
-        if core.digest(_plain(L.record(ent))) != before:
-            raise RuntimeError(f"the source object was disturbed by the selections: {L.label(spec)}")
+        disturbed = core.digest(_plain(L.record(ent))) != before
     finally:
         ws.close()
-    # every violation must reproduce alone in a fresh workspace (no order dependence inside the item)
-    viol = []
-    for clause, witness, detail, hist in acc.viol.values():
-        again = {(c, w) for c, w, _ in replay(hist)}
-        if (clause, witness) not in again:
-            raise RuntimeError(f"violation not reproducible in isolation: {clause} | {witness} | {core.jdump(hist)[:400]}")
-        viol.append((clause, witness, detail, hist))
+    viol, dropped = [], 0
+    seen = set()
+
+    def keep(fails, hist):
+        for c, w, d in fails:
+            if (c, w) not in seen:
+                seen.add((c, w))
+                viol.append((c, w, d, hist))
+
+    # every violation must reproduce alone in a fresh workspace.  One that does not depends on an earlier
+    # selection made on the same object: it is reported as the sequence [earlier copy (stay), failing step],
+    # judged against the object's original record.
+    for key, (clause, witness, detail, hist) in acc.viol.items():
+        again = replay(hist)
+        if key in {(c, w) for c, w, _ in again}:
+            keep([f for f in again if (f[0], f[1]) == key], hist)
+            continue
+        prefix, log, step = acc.where[key]
+        if step in log:
+            log = log[: log.index(step)]
+        stays = [dict(e, stay=True) for e in log]
+        found = False
+        for cand in [[e] for e in stays[:60]] + [stays]:
+            h = {"spec": spec, "steps": prefix + cand + [step]}
+            got = replay(h)
+            if any(c == clause and w == witness + AFTER for c, w, _ in got):
+                keep(got, h)
+                found = True
+                break
+        if not found:
+            dropped += 1
+    # the selections altered the source itself: show it with a second selection on the same object
+    if disturbed:
+        coords = rec["coords"]
+        probe = {"op": "copy", "inverse": False,
+                 "ext": [[float(coords[:, k].min()) - 1.0 for k in range(3)], [float(coords[:, k].max()) + 1.0 for k in range(3)]]}
+        stays = [dict(e, stay=True) for e in acc.srclog]
+        for cand in [[e] for e in stays[:80]] + [stays]:
+            h = {"spec": spec, "steps": cand + [probe]}
+            got = replay(h)
+            if any(w == disturbed_witness(rec) for _, w, _ in got):
+                keep(got, h)
+                break
+        else:
+            dropped += 1
     return {"n": acc.n, "states": acc.states, "viol": viol, "n_viol": acc.n_viol, "outcomes": sorted(acc.outcomes, key=repr),
-            "sample": acc.sample, "label": L.label(spec), "cpu": time.process_time() - t0}
+            "sample": acc.sample, "label": L.label(spec), "cpu": time.process_time() - t0, "dropped": dropped}
 
 
 def _plain(rec):
@@ -432,6 +496,10 @@ def run(ctx):
             ctx.violation(clause, witness, hist, detail)
         if res["sample"] is not None and kind not in {s.get("kind") for s in ctx.samples}:
             ctx.sample(dict(res["sample"], kind=kind), cap=8)
+    dropped = sum(r.get("dropped", 0) for r in results)
+    if dropped:
+        ctx.assumptions.append(f"{dropped} violating execution(s) seen while objects were shared between selections could not be "
+                               "reproduced by any replayed sequence and are not reported")
     transitions = sum(tot.values())
     subsets = len({o for o in ctx.outcomes if len(o) == 4 and o[1] == "vertex-subset" and o[2] != "copy"})
     ctx.cover(
